@@ -29,6 +29,7 @@ type mutantSpec struct {
 	Rule       string     `json:"rule"`
 	Expect     string     `json:"expect"` // substring of the key of the finding the rule must report
 	Edits      [][]string `json:"edits"`  // [file, old, new] or [file, old, new, nth]
+	Patch      string     `json:"patch"`  // alternatively: a unified diff (path relative to /verif), applied with patch -p1
 	What       string     `json:"what"`
 }
 
@@ -67,6 +68,18 @@ func applyMutant(m mutantSpec, src string) (dir string, applied bool, err error)
 	if out, err := cp.CombinedOutput(); err != nil {
 		return dir, false, fmt.Errorf("copy: %v %s", err, out)
 	}
+	if m.Patch != "" {
+		pf := m.Patch
+		if !filepath.IsAbs(pf) {
+			pf = filepath.Join(mutantVerifDir, pf)
+		}
+		pc := exec.Command("patch", "-p1", "-s", "--no-backup-if-mismatch", "-i", pf)
+		pc.Dir = dir
+		if _, err := pc.CombinedOutput(); err != nil {
+			return dir, false, nil // does not apply to the current tree: skipped
+		}
+		return dir, true, nil
+	}
 	for _, e := range m.Edits {
 		if len(e) < 3 {
 			return dir, false, fmt.Errorf("bad edit")
@@ -92,7 +105,10 @@ func applyMutant(m mutantSpec, src string) (dir string, applied bool, err error)
 	return dir, true, nil
 }
 
+var mutantVerifDir = "/verif"
+
 func loadMutants(verifDir string) ([]mutantSpec, error) {
+	mutantVerifDir = verifDir
 	files, _ := filepath.Glob(filepath.Join(verifDir, "mutants", "*.json"))
 	sort.Strings(files)
 	var all []mutantSpec
